@@ -146,10 +146,25 @@ def runtime_check(prop, tier, seed, groups=None, extra_args=()):
         ws.generate(groups)
         for prof in profiles:
             dropped_all += ws.build_resilient(groups, prof)
+    probe_info = None
+    if prop == "C11":
+        # probe declarations (rule-invalid, above bit N-1 but inside the storage): monitored only if the macro accepts them
+        with build.Lock():
+            ws.generate(["probe11"])
+            pd = []
+            for prof in profiles:
+                pd = ws.build_resilient(["probe11"], prof)
+        n_probe = len(catalog.family("probe11", tier, seed))
+        rejected = len({d["case"] for d in pd})
+        probe_info = dict(generated=n_probe, rejected_at_compile_time=rejected, accepted_and_monitored=n_probe - rejected)
+        if n_probe - rejected > 0:
+            groups = groups + ["probe11"]
     for prof in profiles:
         for g in groups:
             reports.append(ws.run(g, prof, prop, extra=extra_args))
     cov = summarize(prop, reports, rule, dropped_all)
+    if probe_info:
+        cov["probe_declarations_above_bit_N-1"] = probe_info
     # cross-profile digests (same workload, same seed): must be identical
     by_group = {}
     for r in reports:
